@@ -134,7 +134,7 @@ def _delta(rng, clk, g, cur, allow_back):
     return g * rng.randint(10 ** 6, 10 ** 9)
 
 
-def _evolve(rng, snap, clk, g, mode, nf, anchor):
+def _evolve(rng, snap, clk, g, mode, nf, anchor, back=True):
     """next kernel state; mode: any | safe (elapsed total 0 or >= 1 s on every line) | sub (small totals) | same"""
     if mode == "same" or (mode == "safe" and rng.random() < 0.15):
         return {"total": list(snap["total"]), "cpus": [list(c) for c in snap["cpus"]]}
@@ -145,11 +145,11 @@ def _evolve(rng, snap, clk, g, mode, nf, anchor):
             for _ in range(rng.choice([1, 1, 2, 3])):
                 f = rng.randrange(nf)
                 out[f] += rng.choice([1, 1, 2, 5, max(1, clk // 5), max(1, clk - 1)])
-            if rng.random() < 0.2 and out[1] > 0:
+            if back and rng.random() < 0.2 and out[1] > 0:
                 out[1] -= 1
             return out
         for f in range(nf):
-            out[f] += _delta(rng, clk, g, out[f], allow_back=not (mode == "safe" and f == anchor))
+            out[f] += _delta(rng, clk, g, out[f], allow_back=back and not (mode == "safe" and f == anchor))
         if mode == "safe":
             out[anchor] = max(out[anchor], vs[anchor]) + g * clk
         return out
@@ -167,22 +167,23 @@ def gen_script(rng, flavour, big=False):
     snaps = [{"total": [base() for _ in range(nf)], "cpus": [[base() for _ in range(nf)] for _ in ids]}]
     anchor = rng.choice([0, 1, 2, 3, 4, 5, 6] + ([7] if nf >= 8 else []))
     nthreads = rng.choice([1, 1, 2, 3])
+    back = rng.random() < 0.6      # may counters go backwards in this script?
     mode = {"p": "any", "tp-safe": "safe", "tp-sub": "sub", "mixed": "safe", "mixed-any": "any"}[flavour]
     events = []
     for _ in range(rng.randint(2, 7 if big else 6)):
         fn = {"p": "p", "tp-safe": "tp", "tp-sub": "tp"}.get(flavour) or rng.choice(["p", "tp"])
         iv = rng.choice(["none", "none", "none", "zero", "pos", "pos", "neg"] if rng.random() < 0.5 else ["none", "zero", "pos"])
         m = mode if rng.random() < 0.9 else "same"
-        snaps.append(_evolve(rng, snaps[-1], clk, g, m, nf, anchor))
+        snaps.append(_evolve(rng, snaps[-1], clk, g, m, nf, anchor, back))
         k1 = len(snaps) - 1
         k2 = k1
         if iv == "pos":
-            snaps.append(_evolve(rng, snaps[-1], clk, g, mode, nf, anchor))
+            snaps.append(_evolve(rng, snaps[-1], clk, g, mode, nf, anchor, back))
             k2 = len(snaps) - 1
         events.append({"tid": rng.randrange(nthreads), "fn": fn, "percpu": rng.random() < 0.45, "iv": iv, "k1": k1, "k2": k2,
                        "zero": rng.choice([0, 0.0])})
-    back = any(b < a for s, t in zip(snaps, snaps[1:]) for a, b in zip(s["total"] + sum(s["cpus"], []), t["total"] + sum(t["cpus"], [])))
-    cls = "script-%s%s%s%s" % (flavour, "-huge" if huge else "", "-back" if back else "", "-mt" if nthreads > 1 else "")
+    went_back = any(b < a for s, t in zip(snaps, snaps[1:]) for a, b in zip(s["total"] + sum(s["cpus"], []), t["total"] + sum(t["cpus"], [])))
+    cls = "script-%s%s%s%s" % (flavour, "-huge" if huge else "", "-back" if went_back else "", "-mt" if nthreads > 1 else "")
     return {"kind": "script", "cls": cls, "clk": clk, "nf": nf, "ids": ids, "gran": g, "snaps": snaps, "events": events}
 
 
@@ -243,7 +244,7 @@ def _exhaustive_shapes():
 
 
 def gen_cases(rng, tier):
-    n = {"quick": 1, "thorough": 20, "search": 2}[tier]
+    n = {"quick": 1, "thorough": 10, "search": 2}[tier]
     big = tier == "thorough"
     cases = []
     if tier != "search":
